@@ -177,6 +177,10 @@ func (p *Prog) makeReplay(o *Obligation, prop, repo, outDir string) *ReplayRecor
 	rep := &ReplayRecord{Property: prop, Obligation: o.Name, Kind: o.Kind, Function: o.Func, Clause: o.Text, Where: o.Where,
 		Solver: r.Status, Backend: r.Backend, SolverOut: truncate(r.Output, 6000), SMTFile: r.File}
 	target := o
+	if os.Getenv("GOVC_DEV_NOSEARCH") != "" {
+		rep.Note = "replay disabled (development run)"
+		return rep
+	}
 	if r.Status != "sat" {
 		// candidate-model search: drop the quantified assumptions (weaker problem, more models); a model found
 		// this way is only a candidate and counts solely if it reproduces on the real code.
@@ -357,6 +361,9 @@ func splitSExprs(s string) []string {
 // searchCounterexample re-generates the obligations of the function with loops unrolled (k = 3) and no loop
 // annotations, and looks for a model of the same clause that replays on the real code.
 func (p *Prog) searchCounterexample(o *Obligation, rep *ReplayRecord, repo, dir string) (bool, string) {
+	if os.Getenv("GOVC_DEV_NOSEARCH") != "" {
+		return false, "counterexample search disabled (development run)"
+	}
 	fuzzNote := ""
 	if ok, note := p.fuzzReplay(o, rep, repo, dir, p.seed); ok {
 		return true, note
